@@ -2,7 +2,7 @@
 import numpy as np
 
 RULE = ("K: BrushConstraint2D.__call__ (public; axis 0/1/2, background index 0 and 1) on 2-D designs of 3..14 cells per side "
-        "(quick: <= 10) with circular_brush of diameter 3, 5, 7 and the non-integer 2.5, 3.5, 4.2, 4.5, 5.5 (and 1); circular_brush itself is "
+        "(quick: <= 10) plus three strongly elongated ones (3x64, 64x3, 4x72; seed C25i) with circular_brush of diameter 3, 5, 7 and the non-integer 2.5, 3.5, 4.2, 4.5, 5.5 (and 1); circular_brush itself is "
         "compared with the model and with its definition (odd size, point-symmetric, centre set) for 13 diameters: white-noise designs, smooth blobs, stripes "
         "thinner than the brush, integer-valued and +-1 designs (exact ties in every comparison), constant designs, designs smaller than the brush. The Lean "
         "model runs the same loop first (it reports the number of iterations, the case taken in each one and whether an "
